@@ -398,6 +398,9 @@ impl ReadConsumer for ReadPnm {
     fn consume<R: Read>(self, r: R) -> Self::Out {
         read_pnm(r)
     }
+    fn consume_path(self, path: &std::path::Path) -> Self::Out {
+        re::util::pnm::load_pnm(path)
+    }
 }
 
 enum WriteRes {
@@ -420,6 +423,9 @@ fn put<W: Write, V: re::util::buf::AsSlice2<Color3>>(out: W, path: Option<&std::
 
 impl WriteConsumer for WritePpm<'_> {
     type Out = WriteRes;
+    fn consume_path(self, path: &std::path::Path) -> WriteRes {
+        WritePpm(self.0, Some(path)).consume(io::sink())
+    }
     fn consume<W: Write>(self, out: W) -> WriteRes {
         let li = self.0;
         let path = self.1;
